@@ -427,10 +427,14 @@ def collect(F, scope, S=None):
             fp = fingerprint(root, bodies, S)
             if not fp["dec"] and not fp["calls"]:
                 continue
+            import atoms as _A
+            fp["atoms"] = _A.atoms(bodies, S)
             if root in out:      # same path defined twice (several impls): merge
                 for k in ("dec", "calls"):
                     for x, n in fp[k].items():
                         out[root][1][k][x] = out[root][1][k].get(x, 0) + n
+                for k, v in fp["atoms"].items():
+                    out[root][1]["atoms"][k] = sorted(set(out[root][1]["atoms"].get(k, [])) | set(v))
             else:
                 out[root] = (rb[0] if rb else bodies[0], fp)
     return out
@@ -440,7 +444,105 @@ def frozen_path(prop):
     return os.path.join(V, "rules", "fp", prop + ".json")
 
 
+# atom categories whose LOSS raises an alarm (engine/atoms.py; chosen on the seeded and benign corpora, DESIGN 3.13)
+ALARM_CATS = tuple((os.environ.get("CKB_VERIF_ATOM_CATS") or "call,recv,arg,dec,must,mustq,new,fld,set").split(","))
+_CAT_TEXT = {"call": "no longer calls", "recv": "no longer applies (receiver)", "arg": "no longer passes (argument form)", "dec": "no longer tests",
+             "must": "rejection test no longer on every successful path:", "mustcall": "no longer on every successful path: call of", "mustq": "fallible step no longer on every successful path:", "new": "no longer builds",
+             "fld": "no longer initialises (field form)", "set": "no longer assigns (field form)"}
+
+
+def _crate(path):
+    return path.split("::", 1)[0].lstrip("<")
+
+
+def _head(x):
+    """`callee #i` / `T::V.f` / `.f` part of an arg / recv / fld / set atom (everything before the JSON form)"""
+    i = x.find(" [")
+    return x[:i] if i > 0 else x
+
+
+def atom_losses(ref, cur, cats):
+    """ref / cur: {function path: {category: [atoms]}}. Returns (lost, gone_missing, gone_ok):
+      lost[path]         atoms of a function still present that it no longer has and that did not move
+      gone_missing[path] atoms of a function that no longer exists which are found nowhere among what the crate's functions gained
+      gone_ok            functions that no longer exist but whose atoms were all found again (renamed / inlined)
+    An atom *moved* when a new function of the same crate has it (parameters erased: a helper sees its caller's values as parameters) or
+    another existing function has it that did not have it in the reference (exact match)."""
+    import atoms as A
+    gain_new, gain_old = {}, {}
+    for path, have in cur.items():
+        cr = _crate(path)
+        for c in cats:
+            hv = set(have.get(c, []))
+            if path not in ref:
+                gn = gain_new.setdefault(cr, {}).setdefault(c, set())
+                for x in hv:
+                    gn.add(A.erase_params(x))
+                    if A.PARAM.search(x):       # the helper applies the step to a value its caller hands in: any form the caller had is compatible
+                        gn.add(_head(x) + " ?")
+            else:
+                g = hv - set(ref[path].get(c, []))
+                if g:
+                    gain_old.setdefault(cr, {}).setdefault(c, {}).setdefault(path, set()).update(g)
+    gone = [path for path in ref if path not in cur]
+    gone_short = set()
+    for g in gone:
+        segs = [x for x in re.sub(r"<[^<>]*>", "", re.sub(r"<[^<>]*>", "", g)).split("::") if x]
+        gone_short.add("::".join(segs[-2:]))
+
+    def moved(cr, c, x, own):
+        gn = gain_new.get(cr, {}).get(c, ())
+        if A.erase_params(x) in gn or (_head(x) + " ?") in gn:
+            return True
+        for path, g in gain_old.get(cr, {}).get(c, {}).items():
+            if path != own and x in g:
+                return True
+        return False
+    lost, gone_missing, gone_ok = {}, {}, []
+    for path, watoms in ref.items():
+        cr = _crate(path)
+        if path not in cur:
+            missing = []
+            for c in cats:
+                pool_old = set()
+                for g in gain_old.get(cr, {}).get(c, {}).values():
+                    pool_old |= {A.erase_params(y) for y in g}
+                for x in watoms.get(c, []):
+                    ex = A.erase_params(x)
+                    if ex in gain_new.get(cr, {}).get(c, ()) or ex in pool_old or (_head(x) + " ?") in gain_new.get(cr, {}).get(c, ()):
+                        continue
+                    if c in ("call", "arg", "recv", "mustcall", "mustq") and x.split(" ")[0] in gone_short:
+                        continue
+                    missing.append((c, x))
+            if missing:
+                gone_missing[path] = missing
+            elif any(watoms.get(c) for c in cats):
+                gone_ok.append(path)
+            continue
+        hatoms = cur[path]
+        l = []
+        for c in cats:
+            hv = set(hatoms.get(c, []))
+            for x in watoms.get(c, []):
+                if x in hv:
+                    continue
+                if c in ("call", "arg", "recv", "mustcall", "mustq") and x.split(" ")[0] in gone_short:
+                    continue      # a call of a function that no longer exists: decided where that function's atoms are looked for
+                if moved(cr, c, x, path):
+                    continue
+                if c == "arg" and (_head(x) + " ?") in hv:
+                    continue      # the same argument is still passed; its value is opaque to the form analysis now
+                l.append((c, x))
+        if l:
+            lost[path] = l
+    return lost, gone_missing, gone_ok
+
+
 def check(R, F, prop, S=None):
+    """Alarm: a function of the anchor files lost an atom of the reviewed reference (engine/atoms.py) and the atom did not move into a new
+    helper / a caller. Everything else the first-generation fingerprint sees (values yielded per side, effects per side, multiplicities,
+    added steps) is reported as a REVIEW note only: it differs from the reviewed reference but is not evidence that the property is broken."""
+    import atoms as A
     p = frozen_path(prop)
     if not os.path.exists(p):
         return
@@ -450,34 +552,49 @@ def check(R, F, prop, S=None):
     cur = collect(F, scope, S)
     fz = frozen["functions"]
     R.sites += len(cur)
-    n_ok = 0
+    cats = [c for c in ALARM_CATS if c]
+    lost_by_fn, gone_missing, gone_ok = atom_losses({p_: (v.get("atoms") or {}) for p_, v in fz.items()}, {p_: (v[1].get("atoms") or {}) for p_, v in cur.items()}, cats)
+
+    n_ok = n_review = 0
     for path, want in sorted(fz.items()):
         key = "fp/%s" % fkey(path)
+        cr = _crate(path)
         if path not in cur:
-            if want["dec"] or len(want["calls"]) >= 3:
-                R.bad(key, "function %s (anchor file %s) no longer exists under this name: its %d decision(s) and %d significant call(s) cannot be located (renamed, removed or merged: review)" % (
-                    path, want.get("file"), sum(want["dec"].values()), sum(want["calls"].values())), [want.get("file") or ""])
+            missing = gone_missing.get(path)
+            if missing:
+                R.bad(key, "function %s (anchor file %s) no longer exists and %d of its checks / steps are found nowhere in the crate's new or changed functions: %s" % (
+                    fkey(path), want.get("file"), len(missing), "; ".join("%s %s" % (_CAT_TEXT[c], x[:140]) for c, x in missing[:4])), [want.get("file") or ""])
+            elif path in gone_ok:
+                n_review += 1
+                R.review(key, "function %s no longer exists under this name; all its checks / steps were found in new or changed functions of the crate (renamed / inlined)" % fkey(path))
             continue
         body, have = cur[path]
         R.fn(body)
+        lost = lost_by_fn.get(path, [])
         gone_d = [d for d, n in want["dec"].items() if have["dec"].get(d, 0) < n]
         new_d = [d for d, n in have["dec"].items() if want["dec"].get(d, 0) < n]
         gone_c = [c for c, n in want["calls"].items() if have["calls"].get(c, 0) < n]
         new_c = [c for c, n in have["calls"].items() if want["calls"].get(c, 0) < n]
+        if lost:
+            R.bad(key, ("%s (%s) lost %d fact(s) of the reviewed reference: " % (fkey(path), body.file, len(lost)) + "; ".join("%s %s" % (_CAT_TEXT[c], x[:200]) for c, x in lost[:5]))[:1500], [body.where()])
+            continue
         if not (gone_d or new_d or gone_c or new_c):
             n_ok += 1
             continue
+        n_review += 1
         parts = []
         if gone_d:
-            parts.append("decision(s) no longer made: " + "; ".join(show_dec(json.loads(d)) for d in gone_d[:2]))
+            parts.append("decision(s) no longer made in this form: " + "; ".join(show_dec(json.loads(d)) for d in gone_d[:2]))
         if new_d:
             parts.append("decision(s) now made: " + "; ".join(show_dec(json.loads(d)) for d in new_d[:2]))
         if gone_c:
             parts.append("step(s) dropped or changed: " + ", ".join("%s x%d" % (c[:160], want["calls"][c] - have["calls"].get(c, 0)) for c in gone_c[:4]))
         if new_c:
             parts.append("step(s) added or changed: " + ", ".join("%s x%d" % (c[:160], have["calls"][c] - want["calls"].get(c, 0)) for c in new_c[:4]))
-        R.bad(key, "%s differs from the reviewed reference in %s: %s" % (fkey(path), body.file, " | ".join(parts))[:1500], [body.where()])
+        R.review(key, ("%s differs from the reviewed reference in %s (no reference fact lost; not an alarm): %s" % (fkey(path), body.file, " | ".join(parts)))[:1200])
     R.fp_stats = {"reference": os.path.relpath(p, V), "scope": scope, "functions_in_reference": len(fz), "functions_found": len(cur), "functions_unchanged": n_ok,
+                  "functions_changed_without_loss": n_review, "alarm_categories": cats,
+                  "atoms_in_reference": {c: sum(len((v.get("atoms") or {}).get(c, [])) for v in fz.values()) for c in cats},
                   "decisions_in_reference": sum(sum(v["dec"].values()) for v in fz.values()), "significant_calls_in_reference": sum(sum(v["calls"].values()) for v in fz.values())}
     if n_ok:
         R.ok("fp/unchanged", "%d of %d functions of the anchor files have the reference decisions and significant calls" % (n_ok, len(fz)), [])
@@ -488,7 +605,7 @@ def check(R, F, prop, S=None):
 def freeze(F, prop, S=None):
     scope = scope_of(prop)
     cur = collect(F, scope, S)
-    out = {"property": prop, "scope": scope, "functions": {path: {"file": b.file, "dec": fp["dec"], "calls": fp["calls"]} for path, (b, fp) in sorted(cur.items())}}
+    out = {"property": prop, "scope": scope, "functions": {path: {"file": b.file, "dec": fp["dec"], "calls": fp["calls"], "atoms": fp["atoms"]} for path, (b, fp) in sorted(cur.items())}}
     os.makedirs(os.path.dirname(frozen_path(prop)), exist_ok=True)
     with open(frozen_path(prop), "w") as fh:
         json.dump(out, fh, indent=0, sort_keys=True)
@@ -500,7 +617,7 @@ if __name__ == "__main__":
     sys.path.insert(0, os.path.dirname(os.path.abspath(__file__)))
     import run as _run
     from facts import Facts
-    F = Facts(_run.ensure_facts()[0])
+    F = Facts(os.environ.get("CKB_VERIF_FACTS") or _run.ensure_facts()[0])
     S = K.Summ(F, depth=3)
     props = sys.argv[1:] or ["C%02d" % i for i in range(1, 21)]
     for p in props:
